@@ -1,0 +1,16 @@
+//go:build verif
+
+package sns
+
+// Contracts for govc (contract-based deductive verification). Comment-only file.
+
+// C20: the SNS payload bound. A message within the limit is sent as it is; a longer one is cut to at most the limit
+// in *bytes* (the unit of the SNS limit) and reported as truncated; a message that is not UTF-8 is refused.
+//@ func validateAndTruncateMessage
+//@   props C20
+//@   requires maxMessageSizeInBytes >= 0
+//@   after call fmt.Errorf assume res0 != nil
+//@   ensures [short-messages-are-sent-whole] result2 == nil && len(message) <= maxMessageSizeInBytes ==> result0 == message && !result1
+//@   ensures [long-messages-are-cut-to-the-byte-limit-and-flagged] result2 == nil && len(message) > maxMessageSizeInBytes ==> result1 && len(result0) <= maxMessageSizeInBytes
+//@   ensures [only-invalid-text-is-refused] (result2 != nil) == !ret("utf8.ValidString")
+//@   assigns nothing
